@@ -385,8 +385,7 @@ def direct_relative(mnemonic, pairs, deferred=False):
         state = {"insn": _FakeInsn(mnemonic), "rel_address": rel, "emit_address": rel - 2}
         operand = _FakeOperand(t)
         if deferred:
-            c = _Ctx()
-            operand = ops.deferred(c, c, operand)
+            operand = ops.deferred(None, None, operand)
 
         def go():
             mode, enc = stub.encode(operand, state)
